@@ -199,6 +199,9 @@ func TestC02One(t *testing.T) {
 	if err := json.Unmarshal(raw, &c); err != nil {
 		t.Fatal(err)
 	}
+	if q := os.Getenv("VERIF_QUERY"); q != "" {
+		c.Query = q
+	}
 	model, err := xlate.Parse(c.Query)
 	if err != nil {
 		t.Fatalf("parse: %v", err)
